@@ -450,6 +450,50 @@ def fam_joints(R, n, op):
             R.sample({'op': op, 'kinds': ''.join(kinds), 'joined': joined})
 
 
+REPLAY_INTM = """
+import numpy as np
+from svgpathtools.path import transform
+M = np.array(%r)            # integer dtype on purpose
+ps = %r
+seg = bpoints2bezier(ps)
+try:
+    b = transform(seg, M)
+except Exception as e:
+    REPRODUCED('transform(%%r, integer matrix %%r) raised %%s: %%s' %% (seg, M.tolist(), type(e).__name__, e))
+for t in (0.0, 0.3, 1.0):
+    p = seg.point(t); q = M.dot([p.real, p.imag, 1.0]); want = complex(q[0], q[1])
+    if abs(b.point(t) - want) > 1e-9 * (1 + abs(want)):
+        REPRODUCED('transform(%%r, integer matrix %%r).point(%%r) = %%r, M applied to point(t) = %%r' %% (seg, M.tolist(), t, b.point(t), want))
+"""
+
+
+def fam_int_matrix(R, deg):
+    """transform() with a matrix of integer dtype (np.array([[2,0,1],...])): the result must not depend on the dtype of tf."""
+    from svgpathtools.path import transform
+    import svgpathtools.path as P
+    R.bound(degree=deg, matrix='concrete, integer dtype: [[2,-1,3],[1,3,-2],[0,0,1]]')
+    Mi = np.array([[2, -1, 3], [1, 3, -2], [0, 0, 1]])
+
+    def run():
+        ps = [symc('p%d' % i) for i in range(deg + 1)]
+        t = symr('t')
+        seg = cls_of(deg)(*ps)
+        tr = transform(seg, Mi)
+        pt = bern(ps, t)
+        return ps, t, tr.point(t), SC(2 * pt.real - pt.imag + 3, pt.real + 3 * pt.imag - 2)
+
+    for ctx, (kind, val) in explore(run, maxpaths=50):
+        R.path(ctx)
+        script = REPLAY_INTM % (Mi.tolist(), [complex(0.5 * i + 0.25, 1.75 - 0.5 * i * i) for i in range(deg + 1)])
+        if kind != 'ok':
+            if not R.direct_cex('no-exception', {'cls': 'transform with an integer matrix', 'inputs': {'exception': repr(val)[:150]}, 'script': script}):
+                R.unexpected(ctx, 'unexpected %s %r' % (kind, val))
+            continue
+        ps, t, got, want = val
+        R.ob('%s.transform-int-matrix' % NAMES[deg], ctx, ceq(got, want), cex=lambda m: {'cls': 'transform with an integer matrix', 'inputs': {}, 'script': script})
+        R.sample({'class': NAMES[deg], 'matrix_dtype': str(Mi.dtype)})
+
+
 REPLAY_ARCTF = """
 import numpy as np
 from svgpathtools.path import transform
@@ -667,6 +711,7 @@ def fam_arc_transform(R, rot, mclass):
 def families(tier):
     M = 'vf.props.c10'
     fams = [('bezier-ops-deg%d' % d, M, 'fam_bezier_ops', {'deg': d}) for d in (1, 2, 3)]
+    fams += [('bezier-transform-int-matrix-deg%d' % d, M, 'fam_int_matrix', {'deg': d}) for d in (1, 3)]
     fams.append(('arc-scale-refusal', M, 'fam_arc_scale_refusal', {}))
     fams.append(('arc-ops-structure', M, 'fam_arc_ops_structure', {}))
     for rot in (('0', 'p37') if tier == 'quick' else ('0', 'p37', '90', 'm67', 'p127')):
